@@ -184,6 +184,8 @@ func c15Derivations(thorough bool) []string {
 		"x == a.0", "x == a.b.c", `x == a["b c"].d`, "a.b in x", "a.0 not in x.y", `x != "/a/0"`, `"/a/b" in x`, "x contains a.b",
 		"notes == 1", "android != nothing", "order is empty", "inside in isempty", "anyone matches allow", "any asset as ask { ask == notx }",
 		"all matchesx as containsx, iss { iss is not empty and not nota == emptyx }", "x == not", "x == in", "not nothing == 1",
+		"a == 1 or b == 1 or c == 1 or d == 1", "a == 1 and b == 1 and c == 1 and d == 1 and x == 1", "a == 1 or b == 1 and c == 1 or d == 1 and x == 1 or a is empty",
+		"(a == 1 or b == 1) or (c == 1 or d == 1)", "not a == 1 and not b == 1 and not c == 1 and not d == 1",
 		"a is not empty", "a not matches `s`", "any a as x { x == 1 }", "all a as i, _ { i != 0 }", "any a as _, x {x == `s`}", `"/a/b" == "/a"`, "a == -1.5", "not (a == 1 or b == 1)")
 	return out
 }
